@@ -1105,3 +1105,40 @@ TWINS["C03"] = [
        (LAO, "rf[si, ai, -1] += prob*(reward + self.mdp.discount_rate*self.states_to_nodes[ns].value)", "rf[si, ai, -1] += (self.states_to_nodes[ns].value*self.mdp.discount_rate + reward)*prob")),
     TW("penalty-commuted", (LAO, "(q + np.log(am)).argmax(axis=1)[:, None]", "(np.log(am) + q).argmax(axis=1)[:, None]")),
 ]
+
+# ----------------------------------------------------------------------------------- C18
+GG = "msdm/domains/gridgame/tabulargridgame.py"
+DFT = C + "distributions/discretefactortable.py"
+MUTANTS["C18"] = [
+    M("swap-check-only-under-skip", ["SWAP-1"],
+      (GG, "                # agents can't swap locations\n                if self.same_location(ns[an0], s[an1]) and self.same_location(ns[an1], s[an0]):\n                    logit += -np.inf\n            interactions.append(ns)",
+       "            interactions.append(ns)")),
+    M("collision-not-excluded", ["PAIR-1"],
+      (GG, "                        collisions.append((an0, an1))\n                        logit += -np.inf", "                        collisions.append((an0, an1))")),
+    M("clamp-upper-missing", ["CLAMP-1"],
+      (GG, "agent['x'] = max(min(agent['x'] + agentaction['x'], self.width-1), 0)", "agent['x'] = max(agent['x'] + agentaction['x'], 0)")),
+    M("clamp-axes-crossed", ["CLAMP-1"],
+      (GG, "agent['y'] = max(min(agent['y'] + agentaction['y'], self.height-1), 0)", "agent['y'] = max(min(agent['y'] + agentaction['x'], self.height-1), 0)")),
+    M("obstacle-constraint-inverted", ["MOVE-1"],
+      (GG, "obsConstraint = Pr([{an: s[an]}, {an: agent}], probs=[1, 0])", "obsConstraint = Pr([{an: s[an]}, {an: agent}], probs=[0, 1])")),
+    M("fence-weights", ["MOVE-1"],
+      (GG, "agentMove = agentMove * self.fence_success_prob | fenceEffect * (1 - self.fence_success_prob)", "agentMove = agentMove * self.fence_success_prob | fenceEffect")),
+    M("terminal-test-after-moves", ["TERM-1"],
+      (GG, "        if self.is_absorbing(s):\n            return Pr([TERMINALSTATE,])\n\n        #agent-based transitions", "        #agent-based transitions")),
+    M("rewards-at-terminal", ["TERM-1"],
+      (GG, "        if self.is_terminal(s) or self.is_terminal(ns):\n            return jr\n", "        if self.is_terminal(s) and self.is_terminal(ns):\n            return jr\n")),
+    M("double-step-action", ["ACT-1"],
+      (GG, "            {'x': 1, 'y': 0},\n", "            {'x': 2, 'y': 0},\n")),
+    M("product-multiplies-logits", ["ALG-5"],
+      (DFT, "                    logit = self.logit(si) + other.logit(oi)\n", "                    logit = self.logit(si) * other.logit(oi)\n")),
+    M("product-keeps-zero-rows", ["ALG-5"],
+      (DFT, "                    logit = self.logit(si) + other.logit(oi)\n                    if logit == -np.inf:\n                        continue\n", "                    logit = self.logit(si) + other.logit(oi)\n")),
+    M("scale-multiplies-logit", ["ALG-5"],
+      (DFT, "mlogits = [logit + np.log(num) for logit in self.logits]", "mlogits = [logit * num for logit in self.logits]")),
+    M("and-is-mix", ["ALG-5"],
+      (DFT, "    def __and__(self, other: \"DiscreteFactorTable\"):\n        return self.product(other)", "    def __and__(self, other: \"DiscreteFactorTable\"):\n        return self.mix(other)")),
+]
+TWINS["C18"] = [
+    TW("clamp-args-reordered", (GG, "agent['x'] = max(min(agent['x'] + agentaction['x'], self.width-1), 0)", "agent['x'] = max(0, min(self.width-1, agent['x'] + agentaction['x']))")),
+    TW("product-logit-commuted", (DFT, "                    logit = self.logit(si) + other.logit(oi)\n", "                    logit = other.logit(oi) + self.logit(si)\n")),
+]
